@@ -27,13 +27,26 @@ if rc_a != 0:
     print("patch does not apply to /repo:", out_a[:300]); meta["applies"] = False
 else:
     meta["applies"] = True
-    try:
+    if os.environ.get("TRY_SCRATCH") == "1":
+        # same check against a scratch copy of /repo's tree (used while a background run is reading /repo)
+        scratch = "/dev/shm/try_benign_%s_%d" % (name, os.getpid())
+        shutil.rmtree(scratch, ignore_errors=True)
+        os.makedirs(scratch)
+        try:
+            run("git -C /repo archive HEAD miasm | tar x -C %s" % scratch, VERIF)
+            run("patch -p1 -s < %s" % patch, scratch)
+            os.makedirs(os.path.join(scratch, "out"))
+            rc_c, out_c = run("VERIF_REPO=%s VERIF_OUT=%s/out ./check %s --tier quick" % (scratch, scratch, pid), VERIF)
+        finally:
+            shutil.rmtree(scratch, ignore_errors=True)
+    else:
+      try:
         run("git -C /repo apply %s" % patch, VERIF)
         env_out = "/dev/shm/benign_out_%s" % name
         os.makedirs(env_out, exist_ok=True)
         rc_c, out_c = run("VERIF_OUT=%s ./check %s --tier quick" % (env_out, pid), VERIF)
         shutil.rmtree(env_out, ignore_errors=True)
-    finally:
+      finally:
         run("git -C /repo checkout -- .", VERIF)
     meta["check_exit"] = rc_c
     rep = [l for l in out_c.splitlines() if l.startswith("VIOLATION") or l.startswith("  rule") or l.startswith("  at ") or l.startswith("ANALYSIS-ERROR")]
